@@ -4,6 +4,7 @@
 package vlib
 
 import (
+	"encoding/json"
 	"fmt"
 	"math/rand"
 	"os"
@@ -505,4 +506,43 @@ func SmuggledPairs(q string, oA, oB database.SearchOptions) [][2]Request {
 		out = append(out, [2]Request{{q, a2}, {block(oA) + q, b2}})
 	}
 	return out
+}
+
+// WriteYAMLAnchored writes the entries as a well-formed YAML list in which repeated platform names, keywords and tags are
+// written once with an anchor and referred to by alias afterwards (what a hand-maintained file looks like): `platform:
+// [&p1 "linux", &p2 "macos"]` ... `platform: [*p1]`. Strings are JSON-quoted (valid UTF-8 only).
+func WriteYAMLAnchored(path string, cmds []Cmd) error {
+	var b strings.Builder
+	anchors := map[string]string{}
+	item := func(s string) string {
+		if a, ok := anchors[s]; ok {
+			return "*" + a
+		}
+		a := fmt.Sprintf("a%d", len(anchors)+1)
+		anchors[s] = a
+		q, _ := json.Marshal(s)
+		return "&" + a + " " + string(q)
+	}
+	list := func(xs []string) string {
+		out := make([]string, len(xs))
+		for i, x := range xs {
+			out[i] = item(x)
+		}
+		return "[" + strings.Join(out, ", ") + "]"
+	}
+	js := func(s string) string { q, _ := json.Marshal(s); return string(q) }
+	if len(cmds) == 0 {
+		b.WriteString("[]\n")
+	}
+	for _, c := range cmds {
+		fmt.Fprintf(&b, "- command: %s\n  description: %s\n  keywords: %s\n  tags: %s\n", js(c.Command), js(c.Description), list(c.Keywords), list(c.Tags))
+		if c.Niche != "" {
+			fmt.Fprintf(&b, "  niche: %s\n", js(c.Niche))
+		}
+		if len(c.Platform) > 0 {
+			fmt.Fprintf(&b, "  platform: %s\n", list(c.Platform))
+		}
+		fmt.Fprintf(&b, "  pipeline: %v\n", c.Pipeline)
+	}
+	return os.WriteFile(path, []byte(b.String()), 0o644)
 }
